@@ -23,7 +23,7 @@
 EXTENDS Values
 
 MonInit == [viol |-> <<>>, n |-> 0]
-V(m, reason, l, e, ctx) == [m EXCEPT !.viol = Append(@, [prop |-> "C10", reason |-> reason, line |-> l, sc |-> e.id, ctx |-> ctx])]
+V(m, reason, l, e, ctx) == [m EXCEPT !.viol = IF Len(@) >= 300 THEN @ ELSE Append(@, [prop |-> "C10", reason |-> reason, line |-> l, sc |-> e.id, ctx |-> ctx])]
 
 BadStatic(e) == {i \in 1..Len(e.pts) :
                     LET it == e.sitems[i] p == e.pts[i]
